@@ -9,7 +9,9 @@ import collections, json, os, shutil, subprocess, sys
 from pathlib import Path, PurePosixPath
 from harness.core import lean, sp, child
 
-ASSUMPTIONS = ["the dataset directory contains no symbolic links (the property quantifies over path strings)", "POSIX path semantics"]
+ASSUMPTIONS = ["symbolic links planted inside a dataset directory are outside the property's reading (it speaks of path strings in metadata); only the resolved-location "
+               "check of ShardsList.load_or_create is exercised with them (a list outside the root must be refused, wherever the link points)",
+               "the dataset directory contains no symbolic links (the property quantifies over path strings)", "POSIX path semantics"]
 TRUSTED = ["modelled-not-verified: pathlib's parser (compared with M-PATH's `parse` on every generated string), the operating system's path resolution"]
 COMPS = ["a", "..", ".", "", "...", "..a", "a..", "shards_list.json", "x.fb", "train", "b c", "é"]
 
@@ -83,7 +85,17 @@ def hostile_cases(args):
             shutil.copytree(root, work)
             lst = work / "train" / "shards_list.json"
             d = json.loads(lst.read_text())
-            if tamper["field"] == "shard":
+            sibling = Path(str(work) + "_old")
+            if sibling.exists(): shutil.rmtree(sibling)
+            if tamper["field"] == "symlink":
+                # the sub-directory train/a of the dataset is a symbolic link to a directory outside the root that holds a
+                # valid shards_list.json: either somewhere unrelated, or in a sibling whose *name* merely starts with the root's
+                tgt = outside / "ods" if tamper["path"] == "unrelated" else sibling
+                if tamper["path"] != "unrelated":
+                    shutil.copytree(outside / "ods", sibling)
+                shutil.rmtree(work / "train" / "a")
+                (work / "train" / "a").symlink_to(tgt / "train", target_is_directory=True)
+            elif tamper["field"] == "shard":
                 target = tamper["path"].replace("$OUT", str(oshard)).replace("$RELOUT", os.path.relpath(oshard, work))
                 d["shard_files"][0]["file_infos"][0]["file_path"] = target
                 d["shard_files"][0]["file_infos"][0]["hash_checksums"] = list(ods.dataset_structure.hash_checksum_algorithms and
@@ -96,7 +108,7 @@ def hostile_cases(args):
             lst.write_text(json.dumps(d))
             r = {"tamper": tamper, "events": []}
             before_outside = sorted(str(p) for p in base.rglob("*") if not str(p).startswith(str(work)))
-            for action in a["actions"]:
+            for action in (a["actions"] if tamper["field"] != "symlink" else ["write_sub"]):
                 del opened[:]
                 try:
                     dd = Dataset(work)
@@ -106,15 +118,23 @@ def hostile_cases(args):
                         with DatasetFiller(dd) as f:
                             f.write_example(values=sp.val(5), split="train")
                         got = "ok"
+                    elif action == "write_sub":
+                        with DatasetFiller(dd, relative_path_from_split=Path("a")) as f:
+                            f.write_example(values=sp.val(5), split="train")
+                        got = "ok"
                     else:
                         got, _ = I.run_iface(dd, action, "train", shuffle=0, T=2)
                 except Exception as e:  # noqa: BLE001
                     got = f"{type(e).__name__}: {str(e)[:80]}"
-                esc = sorted({p for p in opened if str(outside) in os.path.realpath(p)})
+                def is_outside(p):
+                    rp = os.path.realpath(p)
+                    return rp.startswith(str(base) + os.sep) and not (rp == str(work) or rp.startswith(str(work) + os.sep))
+                esc = sorted({p for p in opened if is_outside(p)})
                 r["events"].append({"action": action, "result": got if isinstance(got, str) else sorted(got), "outside_opens": esc[:3]})
             after_outside = sorted(str(p) for p in base.rglob("*") if not str(p).startswith(str(work)))
             r["created_outside"] = [p for p in after_outside if p not in before_outside]
             res["results"].append(r)
+            if sibling.exists(): shutil.rmtree(sibling)
         # the writer's sub-directory argument
         for sub in a["subdirs"]:
             work = base / "work"
@@ -163,7 +183,8 @@ def run(ctx):
         if diffs: corr_bad.append({"string": s, "diffs": diffs})
     # ---- crafted datasets
     tampers = [{"field": "shard", "path": "$OUT"}, {"field": "shard", "path": "$RELOUT"}, {"field": "shard", "path": "train/../../../outside/ods/train/x.fb"},
-               {"field": "child", "path": "$OUT"}, {"field": "child", "path": "$RELOUT"}, {"field": "self", "path": "$RELOUT"}, {"field": "self", "path": "$OUT"}]
+               {"field": "child", "path": "$OUT"}, {"field": "child", "path": "$RELOUT"}, {"field": "self", "path": "$RELOUT"}, {"field": "self", "path": "$OUT"},
+               {"field": "symlink", "path": "unrelated"}, {"field": "symlink", "path": "prefix-sibling"}]
     actions = ["open", "check", "sync", "concurrent", "write"] + (["rust", "tf", "async"] if ctx.thorough else ["rust"])
     subdirs = ["..", "../x", "a/../../x", "$ABS", "a/./b"]
     args = [{"base": str(ctx.scratch / f"c17_{fmt}"), "fmt": fmt, "tampers": tampers, "actions": actions, "subdirs": subdirs} for fmt in (["fb"] if not ctx.thorough else ["fb", "npz", "tfrec"])]
@@ -179,6 +200,16 @@ def run(ctx):
                                {"case": res["case"], "subdir": r["subdir"], "created": r["created_outside"][:5]})
                 continue
             t = r["tamper"]
+            if t["field"] == "symlink":
+                # symbolic links inside a dataset are outside the property's reading (path *strings*); what the code does promise —
+                # `load_or_create` resolves the list's location and refuses one outside the root — must hold for every target
+                for ev in r["events"]:
+                    nh += 1
+                    if ev["result"] == "ok":
+                        ctx.report({"kind": "loads-list-outside", "field": "symlink", "target": t["path"]},
+                                   f"{res['case']['fmt']}: a writer continued a shard list that a symbolic link places outside the root ({t['path']}) instead of refusing it",
+                                   {"case": res["case"], "tamper": t, "event": ev})
+                continue
             if r["created_outside"]:
                 ctx.report({"kind": "writer-escapes", "field": t["field"]}, f"metadata {t} made a later write create {r['created_outside'][:2]} outside the root",
                            {"case": res["case"], "tamper": t})
@@ -197,7 +228,8 @@ def run(ctx):
         "evaluations": len(real) + nh, "distinct_nontrivial": len(set(strings)), "traces_validated_against_impl": len(real) - len(corr_bad),
         "rule": "strings from a path grammar (components a .. . '' ... ..a a.. shards_list.json x.fb 'b c' é; leading '', /, //, ///; depth 0-6; trailing /) through pathlib, "
                 "FileInfo, ShardsList, ShardListInfo and the filler guard; crafted datasets whose shard / child-list / self paths point (absolutely, relatively, via ..) to a valid "
-                "shard outside the root, opened/checked/iterated/written with every open recorded; hostile writer sub-directories",
+                "shard outside the root, opened/checked/iterated/written with every open recorded; a sub-directory that is a symbolic link to a list outside the root (unrelated place, "
+                "and a sibling whose name starts with the root's name) written into again; hostile writer sub-directories",
         "samples": [{"s": r["s"], "file": r["file"], "normpath": r["normpath"]} for r in real[:6]],
         "input_distribution": {"strings": len(real), "classes(abs,dotdot,accepted)": {str(k): v for k, v in classes.items()}, "hostile_events": nh},
     })
